@@ -246,6 +246,8 @@ class RetCacheWorld:
         + [("ior", i, j) for i, j in ((0, 3), (1, 7))]
         + [("isub", i, j) for i, j in ((0, 1), (1, 3), (2, 6))]
         + [("clear",), ("pop",)]
+        # the queries are operations too: they must not change what later operations see
+        + [(q, n) for q in ("q_any", "q_ret", "q_proxy") for n in ("b0", "b1")]
     )
 
     def __init__(self):
@@ -290,6 +292,16 @@ class RetCacheWorld:
             elif op[0] == "clear":
                 c.clear()
                 M.clear()
+            elif op[0] in ("q_any", "q_ret", "q_proxy"):
+                nd = self.n[op[1]]
+                r = {self.e[i] for i in M if self.e[i].source is nd and self.e[i].label is not None and self.e[i].label.type == ET.Return}
+                pr = {e for e in r if isinstance(e.target, gtirb.ProxyBlock)}
+                if op[0] == "q_any" and c.any_return_edges(nd) != bool(r):
+                    diffs.append(D("retcache-query", r_query="any_return_edges", node=op[1]))
+                if op[0] == "q_ret" and c.block_return_edges(nd) != r:
+                    diffs.append(D("retcache-query", r_query="block_return_edges", node=op[1]))
+                if op[0] == "q_proxy" and c.block_proxy_return_edges(nd) != pr:
+                    diffs.append(D("retcache-query", r_query="block_proxy_return_edges", node=op[1]))
             elif op[0] == "pop":
                 try:
                     e = c.pop()
@@ -339,7 +351,12 @@ class RetCacheWorld:
         return diffs
 
     def canon(self):
-        return tuple(sorted(self.model))
+        # model + which nodes have (possibly empty) index entries: a query that leaves an empty
+        # entry behind changes what any_return_edges answers later, so it is part of the state
+        c = self.c
+        names = {id(v): k for k, v in self.n.items()}
+        keys = tuple(sorted(names.get(id(k), "?") for k in getattr(c, "_return_edges", {}))), tuple(sorted(names.get(id(k), "?") for k in getattr(c, "_proxy_return_edges", {})))
+        return (tuple(sorted(self.model)), keys)
 
 
 # ---------------------------------------------------------------- make_return_cache
